@@ -4,10 +4,11 @@
    word, formatted text on policy-conformant values, extra data in decoded normal form - and an
    extra field is proved to re-parse to exactly the text it was rendered from (the defect of the
    pinned tree, one more space of indentation per cycle, is excluded by this theorem).  NOT
-   proved: stability of line lists (Upstream-Contact) and of the License field, and the
-   composition into whole documents: render . parse . render = render, the same number of
-   paragraphs, equality of the dictionary forms; decided by co-execution and by the executable
-   statement). *)
+   proved: stability of line lists (Upstream-Contact) and of the License field, that every
+   paragraph rendering is free of empty lines (proved for encoded formatted values only; given
+   that, the rendering is proved to split back into exactly as many paragraphs), and the
+   composition into whole documents: render . parse . render = render, equality of the
+   dictionary forms; decided by co-execution and by the executable statement). *)
 From Coq Require Import String.
 From Coq Require Import NArith List Bool.
 From DI Require Import Result PyStr PyStrFacts Codec CodecFacts Deb822 Debcon Copyright Grammar822 Grammar822Facts WordFacts RenderFacts.
@@ -60,6 +61,15 @@ Theorem C13_no_empty_line_in_formatted_value : forall t, exists hd conts,
   no_lb is_linebreak hd /\ Forall (fun l => no_lb is_linebreak l /\ all_space l = false) conts.
 Proof. exact safe_text. Qed.
 Print Assumptions C13_no_empty_line_in_formatted_value.
+
+(* a rendering whose paragraph renderings hold no empty line (and start and end with a character
+   that is not a line feed) splits back into exactly those renderings: the same number of
+   paragraphs *)
+Theorem C13_solid_renderings_split_back : forall ps, Forall solid_block (map para_dumps ps) -> ps <> [] ->
+  split_in_paragraphs (doc_dumps ps) = blocks_pieces (map para_dumps ps) /\
+  length (split_in_paragraphs (doc_dumps ps)) = length ps.
+Proof. exact doc_dumps_splits. Qed.
+Print Assumptions C13_solid_renderings_split_back.
 
 Example C13_nonvacuous :
   convert FCopyright (fval_dumps (convert FCopyright (lit "2001,  2003 Jane   Doe
